@@ -16,6 +16,8 @@ TEXT_ALPHABET = ["a", "b", "c", " ", "é", "\U0001F600", "x", "\n", "Z", "́", "
 ATTR_POOL = {"level": [1, 2, 3], "src": ["img.png", "a&b\"c"], "href": ["foo", "http://x/?a=1&b=2"],
              "order": [1, 3], "alt": [None, "x"], "title": [None, "t<>"], "meta": [None, 1], "id": [1, 2]}
 GENERIC_VALUES = [None, 1, "v", [1, {"k": None}]]
+# values that are false in Python but are not None (used for the values of attribute steps)
+FALSY_VALUES = [0, "", False, [], {}]
 
 
 class SchemaInfo:
